@@ -699,3 +699,15 @@ fn u8_std_crosscheck_consuming() {
     }
     kani::assert(unsafe { GROUP_CALLS } == 0, "U8.std_crosscheck_consuming.no_group_teardown_without_adoptions");
 }
+
+/// C16: `Rc::clone` (not just inc_strong) of a handle to a destroyed object never returns
+#[kani::proof]
+fn u7_clone_of_dead_handle_aborts() {
+    let a = Rc::new(0u8);
+    let (s, w) = any_counts();
+    kani::assume(s == 0 || s == MAX || s == MAX - 1);
+    set_counts(&a, s, w);
+    let c = a.clone();
+    kani::cover!(true, "RETURNED-FROM-ABORT");
+    core::mem::forget((c, a));
+}
